@@ -66,6 +66,16 @@ def scn(name, prelude, **cmds):
             "loopopts": {"preempt_timers": False}}
 
 
+LIGHT = ("expunge|fetch3", "expunge|store3", "expunge|search", "expunge|uidfetch", "close|fetch2", "fetchbody|search",
+         "select|select-inactive", "expunge|noop", "expunge|expunge", "reselect,noop|expunge", "expunge|fetchall slow reader",
+         "expunge|uidfetch slow reader", "close|search slow reader")
+
+
+def thorough_bound(name: str) -> int:
+    """Three deviations where the scenario has <= ~70 choice points (third wave < ~40 000 executions), else two."""
+    return 3 if name in LIGHT else 2
+
+
 def scenarios(tier):
     S = [
         scn("expunge|fetch3", SEL_AB + DEL1, A=["expunge"], B=["fetch3"]),
@@ -132,10 +142,7 @@ def run(tier, seed, jobs) -> Result:
             b = 1  # >100 choice points each: two deviations are explored in the thorough tier (and copy|delete-dst, copy|copyback stay at 2 here)
         if tier != "quick":
             sc = dict(sc, loopopts=dict(sc.get("loopopts") or {}, preempt_timers=True))
-            if sc["name"] in ("expunge|fetch3", "expunge|store3", "expunge|search", "expunge|uidfetch", "close|fetch2", "fetchbody|search",
-                              "select|select-inactive", "expunge|noop", "expunge|expunge", "reselect,noop|expunge", "expunge|fetchall slow reader",
-                              "expunge|uidfetch slow reader", "close|search slow reader"):
-                b = 3  # (<= ~70 choice points: the third wave stays below ~40 000 executions)
+            b = thorough_bound(sc["name"])
         r = sched.explore(sc, b, jobs, seed, max_exec=20000 if tier == "quick" else 120000)
         res.failures.extend(r["failures"])
         tot_exec += r["executions"]
